@@ -209,7 +209,7 @@ impl<'a> St<'a> {
     }
 
     fn op(&mut self, o: &RawOp) {
-        const NKINDS: usize = 60;
+        const NKINDS: usize = 71;
         let kind = frac(o.kind, NKINDS);
         let kf = F::from_canonical_u64(o.k % P);
         let routed = self.b.config.num_routed_wires;
@@ -789,6 +789,115 @@ impl<'a> St<'a> {
                 self.push_base(inv, xv.inverse());
                 self.e.asserted.push((p, "eq"));
                 self.fam("assert", "assert_one");
+            }
+            60 => {
+                let (c, cv) = self.pbool(o.c);
+                let ((x, xv), (y, yv)) = (self.pext(o.a), self.pext(o.b));
+                let t = self.b.select_ext(c, x, y);
+                self.exts.push((t, if cv { xv } else { yv }));
+                self.fam("bool", "select_ext");
+            }
+            61 => {
+                let (mut x, mut xv) = self.pext(o.a);
+                if xv.is_zero() {
+                    x = self.b.one_extension();
+                    xv = FE::ONE;
+                }
+                let t = self.b.inverse_extension(x);
+                self.exts.push((t, xv.inverse()));
+                self.fam("ext", "inverse_extension");
+            }
+            62 => {
+                let n = 1 + frac(o.c, 5);
+                let picks: Vec<(ExtensionTarget<D>, FE)> = (0..n).map(|i| self.pext(o.a.wrapping_add((i as u16).wrapping_mul(o.b | 1)))).collect();
+                let t = self.b.mul_many_extension(picks.iter().map(|p| p.0));
+                self.exts.push((t, picks.iter().map(|p| p.1).product()));
+                self.fam("ext", "mul_many_extension");
+            }
+            63 => {
+                let n = 1 + frac(o.c, 6);
+                let picks: Vec<(ExtensionTarget<D>, FE)> = (0..n).map(|i| self.pext(o.a.wrapping_add((i as u16).wrapping_mul(o.b | 1)))).collect();
+                let t = self.b.add_many_extension(picks.iter().map(|p| p.0));
+                self.exts.push((t, picks.iter().map(|p| p.1).sum()));
+                self.fam("ext", "add_many_extension");
+            }
+            64 => {
+                let (x, xv) = self.pext(o.a);
+                let l = frac(o.b, 7);
+                let t = self.b.exp_power_of_2_extension(x, l);
+                self.exts.push((t, xv.exp_power_of_2(l)));
+                self.fam("ext", "exp_power_of_2_extension");
+            }
+            65 => {
+                let (x, xv) = self.pext(o.a);
+                let (mut y, mut yv) = self.pext(o.b);
+                let (z, zv) = self.pext(o.c);
+                if yv.is_zero() {
+                    y = self.b.one_extension();
+                    yv = FE::ONE;
+                }
+                let t = self.b.div_add_extension(x, y, z);
+                self.exts.push((t, xv / yv + zv));
+                self.fam("ext", "div_add_extension");
+            }
+            66 => {
+                let nbits = frac(o.b, 24);
+                let ev = if nbits == 0 { 0 } else { (o.k >> 3) & ((1u64 << nbits) - 1) };
+                let (et, _) = self.small_input(ev);
+                let bits = self.b.split_le(et, nbits);
+                let t = self.b.exp_from_bits_const_base(kf, bits.iter());
+                self.push_base(t, kf.exp_u64(ev));
+                self.fam("exp", "exp_from_bits_const_base");
+            }
+            67 if self.opts.hashing => {
+                // random access into a vector of hashes (4 parallel random accesses)
+                let maxbits = if routed >= 34 { 4 } else { 3 };
+                let bits = 1 + frac(o.c, maxbits);
+                let n = 1usize << bits;
+                let items: Vec<[(Target, F); 4]> = (0..n)
+                    .map(|i| core::array::from_fn(|j| self.pb(o.a.wrapping_add(((4 * i + j) as u16).wrapping_mul(40503)))))
+                    .collect();
+                let idx = (o.k as usize) % n;
+                let (it, _) = self.small_input(idx as u64);
+                let hs: Vec<HashOutTarget> = items.iter().map(|h| HashOutTarget { elements: core::array::from_fn(|j| h[j].0) }).collect();
+                let t = self.b.random_access_hash(it, hs);
+                for j in 0..4 {
+                    self.push_base(t.elements[j], items[idx][j].1);
+                }
+                self.fam("random_access", "random_access_hash");
+            }
+            68 => {
+                let (c, cv) = self.pbool(o.c);
+                let (x, xv) = self.pext(o.a);
+                let (y, yv) = self.pext(o.b);
+                if !cv || xv == yv {
+                    self.b.conditional_assert_eq_ext(c.target, x, y);
+                } else {
+                    self.b.conditional_assert_eq_ext(c.target, x, x);
+                }
+                self.fam("assert", "conditional_assert_eq_ext");
+            }
+            69 => {
+                // polynomial evaluation gadget at an extension point
+                let n = 1 + frac(o.c, 12);
+                let coeffs: Vec<(ExtensionTarget<D>, FE)> = (0..n).map(|i| self.pext(o.a.wrapping_add((i as u16).wrapping_mul(7919)))).collect();
+                let (pt, ptv) = self.pext(o.b);
+                let poly = plonky2::gadgets::polynomial::PolynomialCoeffsExtTarget(coeffs.iter().map(|p| p.0).collect());
+                let t = poly.eval(self.b, pt);
+                let v = coeffs.iter().rev().fold(FE::ZERO, |acc, p| acc * ptv + p.1);
+                self.exts.push((t, v));
+                self.fam("reduce", "poly_eval");
+            }
+            70 => {
+                // polynomial evaluation gadget at a base-field point
+                let n = 1 + frac(o.c, 12);
+                let coeffs: Vec<(ExtensionTarget<D>, FE)> = (0..n).map(|i| self.pext(o.a.wrapping_add((i as u16).wrapping_mul(7919)))).collect();
+                let (pt, ptv) = self.pb(o.b);
+                let poly = plonky2::gadgets::polynomial::PolynomialCoeffsExtTarget(coeffs.iter().map(|p| p.0).collect());
+                let t = poly.eval_scalar(self.b, pt);
+                let v = coeffs.iter().rev().fold(FE::ZERO, |acc, p| acc * ext_from_base(ptv) + p.1);
+                self.exts.push((t, v));
+                self.fam("reduce", "poly_eval_scalar");
             }
             _ => {
                 // kinds disabled by options degrade to an addition
